@@ -11,7 +11,7 @@
 import itertools
 import random
 
-from vf import extract as X, netmon
+from vf import desc as D, extract as X, netmon
 
 PROP = "C09"
 WATCHDOG_S = 3000
@@ -143,20 +143,26 @@ def histories(M, rec, rng, reps):
         st = netmon.graph_state(net)
         hist = []
         for _s in range(rng.randint(2, 12)):
+            if rng.random() < 0.15:
+                # an object that may already be in the network gets another name (a plain public attribute):
+                # it is still the same node / link / origin for every later call
+                x = rng.choice(N + L + O + Dd)
+                x.name = rng.choice(("junction (km 12.5)", "N0", "x", "", x.name + "'"))
+                rec.count("renames_between_construction_calls")
             kind = rng.choice(("add_node", "add_nodes", "add_link", "add_link", "add_links", "add_origin",
                                "add_destination", "add_path"))
             if kind == "add_node":
                 op = ("add_node", rng.choice(N))
-                net.add_node(op[1])
+                D.callform(net.add_node, D.ORDER["add_node"], {"node": op[1]}, 1)
             elif kind == "add_nodes":
                 op = ("add_nodes", rng.sample(N, rng.randint(0, len(N))))
                 form = rng.choice(("list", "tuple", "iter", "gen"))
                 rec.seen("bulk_argument_forms", ("add_nodes", form))
-                net.add_nodes({"list": list(op[1]), "tuple": tuple(op[1]), "iter": iter(list(op[1])),
-                               "gen": (x for x in op[1])}[form])
+                D.callform(net.add_nodes, D.ORDER["add_nodes"], {"nodes": {"list": list(op[1]), "tuple": tuple(op[1]), "iter": iter(list(op[1])),
+                                                                           "gen": (x for x in op[1])}[form]}, 1)
             elif kind == "add_link":
                 op = ("add_link", rng.choice(N), rng.choice(L), rng.choice(N))
-                net.add_link(op[1], op[2], op[3])
+                D.callform(net.add_link, D.ORDER["add_link"], {"node_up": op[1], "link": op[2], "node_down": op[3]}, 3)
             elif kind == "add_links":
                 trip = [(rng.choice(N), rng.choice(L), rng.choice(N)) for _t in range(rng.randint(0, 3))]
                 op = ("add_links", trip)
@@ -166,20 +172,37 @@ def histories(M, rec, rng, reps):
                     arg = zip([t[0] for t in trip], [t[1] for t in trip], [t[2] for t in trip])
                 else:
                     arg = {"list": list(trip), "tuple": tuple(trip), "iter": iter(list(trip)), "gen": (t for t in trip)}[form]
-                net.add_links(arg)
+                D.callform(net.add_links, D.ORDER["add_links"], {"links": arg}, 1)
             elif kind == "add_origin":
                 op = ("add_origin", rng.choice(O), rng.choice(N))
-                net.add_origin(op[1], op[2])
+                D.callform(net.add_origin, D.ORDER["add_origin"], {"origin": op[1], "node": op[2]}, 2)
             elif kind == "add_destination":
                 op = ("add_destination", rng.choice(Dd), rng.choice(N))
-                net.add_destination(op[1], op[2])
+                D.callform(net.add_destination, D.ORDER["add_destination"], {"destination": op[1], "node": op[2]}, 2)
             else:
                 ln = rng.choice((3, 3, 5, 7))
                 path = [rng.choice(N) if i % 2 == 0 else rng.choice(L) for i in range(ln)]
+                if len(L) >= 2 and rng.random() < 0.25:
+                    # a route that comes back over a stretch it (or an earlier call) has already laid, with
+                    # another link object in between: the last link given for an edge is the one that stays
+                    u_, v_ = rng.choice(N), rng.choice(N)
+                    a_, b_ = rng.sample(L, 2)
+                    c_ = rng.choice(L)
+                    laid = [(uu, vv, ll) for (uu, vv), ll in st["edges"].items()]
+                    if laid and rng.random() < 0.7:  # a stretch laid by an earlier call, with the link it carries
+                        uu, vv, ll = rng.choice(laid)
+                        byid = {id(x): x for x in N + L}
+                        if uu in byid and vv in byid and ll in byid:
+                            u_, v_, a_ = byid[uu], byid[vv], byid[ll]
+                            others = [x for x in L if x is not a_]
+                            if others:
+                                b_ = rng.choice(others)
+                    path = rng.choice(([u_, a_, v_, c_, u_, b_, v_, c_, u_, a_, v_], [u_, b_, v_, c_, u_, a_, v_]))
+                    rec.count("paths_revisiting_an_edge")
                 o = rng.choice(O) if rng.random() < 0.4 else None
                 d = rng.choice(Dd) if rng.random() < 0.4 else None
                 op = ("add_path", path, o, d)
-                net.add_path(path, origin=o, destination=d)
+                D.callform(net.add_path, D.ORDER["add_path"], {"path": path, "origin": o, "destination": d}, 1)
             hist.append(op[0])
             st = netmon.model_apply(st, op)
             rec.count("history_calls")
